@@ -12,6 +12,8 @@ HDIR = os.path.join(os.path.dirname(os.path.dirname(os.path.abspath(__file__))),
 
 # property -> [(harness file, {tier: per-condition timeout}, conditions only in thorough)]
 PLAN = {
+    "C09": [("h_c09.py", {"quick": 240, "thorough": 900}, set())],
+    "C08": [("h_c08.py", {"quick": 240, "thorough": 900}, set())],
     "C14": [("h_c14s.py", {"quick": 200, "thorough": 900}, {"sym_set_allowed_later_full", "sym_remove_instance0"}),
             ("h_c14.py", {"quick": 200, "thorough": 900}, {"allowed_later_equals_constructed3"} | {f"history3_first_{n}" for n in ("add_instance", "add_string", "remove_index", "remove_instance", "remove_index_list", "remove_instance_list", "set_allowed", "set_required", "remove_duplicates", "reindex", "add_from_file")})],
     "C15": [("h_c15.py", {"quick": 150, "thorough": 900}, {"dup_remove_leaves_one_per_class4"})],
@@ -65,6 +67,21 @@ def main(pid, tier):
 UNBLOCK_FILES = {"h_c14.py"}
 
 META = {
+    "C09": dict(
+        bounds={"names": "all ordered pairs of 40 names (ions up to 4 charges, three electron spellings, ortho/para labels, ice and gas pairs, grains, H2*, c-/l- isomers, D-isotopologues)", "surface spellings": "'#X' vs 'GX' with a custom prefix for 6 molecules",
+                "projects": ["naming network (native file, hh93)", "minimal.kida", "primordial.krome with cooling", "UCLCHEM upper-case list with replacement (rr07)"], "artefacts": ["naunet_macros.h through the real preprocessor", "constant_indexes.py (ast)", "[summary] of naunet_config.toml written by `naunet render`", "enzo/naunet_enzo.h from `naunet render --patch enzo`"]},
+        assume=["(a) name pairs are picked by symbolic selectors and evaluated untraced; (b) the per-project obligations are ground facts read from the generated files; the bijection is discharged as a z3 Distinct/range query",
+                "identity classes of the 40 names are given by construction"],
+        rule="one condition / one artefact comparison per project; distinct = distinct conditions or (project, artefact) pairs",
+    ),
+    "C08": dict(
+        bounds={"pairs": "all ordered pairs of 14 clash-prone symbols (H/He, C/Cl/Ca, S/Si, N/Na/Ni, O, F/Fe, P) x counts {none,2,3,12} x charges {0,+,++,-}", "singles": "18 default elements x 4 counts x 6 charge states",
+                "prefix/label": "prefix {none,'#','G' (custom)} x label {none,o,p,m} x 12 elements x counts x charges x second atom {none,H,O,D}", "triples": "all 14^3 concatenations of clash-prone symbols",
+                "upper-case list": "UCLCHEM element list with replacement table: 10 x 11 symbols x counts x charges x ice prefix", "special": "electron spellings, grains, H2*, c-C3H2, l-C3H, oH2D+; 15 names with foreign characters must be rejected"},
+        assume=["names are spelled from a composition chosen by symbolic selectors; the solver enumerates every selection, the real Species then parses untraced and must return exactly that composition (element counts, charge, phase, gas counterpart, mass number, is_atom, renamed name)",
+                "mass numbers are compared with an independent table", "fully symbolic strings are NOT used: CrossHair 0.0.110's regex model produced counterexamples for Species._parse_molecule_name that do not reproduce natively (see DESIGN.md)"],
+        rule="one condition = one CrossHair run to 'Confirmed over all paths'; distinct = distinct conditions",
+    ),
     "C14": dict(
         bounds={"symbolic (h_c14s)": "networks of 2 reactions over stub species with symbolic integer identities in [0,2] (every aliasing pattern), allowed lists of 2 symbolic labels; add with/without allowed list, remove by index, re-examination under a later allowed list",
                 "selected (h_c14)": "one operation out of 11 kinds (add instance/string/file, remove by index/list/instance/instance list, set allowed, set required, remove duplicates, reindex) from every pre-state with <=2 held reactions (pool of 7 real reactions) and 3 allowed lists; all histories of 2 operations (11x11x11 argument choices); histories of 3 in thorough",
